@@ -17,8 +17,16 @@ import (
 )
 
 type scriptCfg struct {
-	Workers uint64 `json:"workers"`
-	Max     uint64 `json:"max_workers"`
+	Workers  uint64 `json:"workers"`
+	Max      uint64 `json:"max_workers"`
+	MaxFirst bool   `json:"max_workers_option_first,omitempty"` // option order MaxWorkers, Workers
+}
+
+func (c scriptCfg) options() []func(*vegeta.Attacker) {
+	if c.MaxFirst {
+		return []func(*vegeta.Attacker){vegeta.MaxWorkers(c.Max), vegeta.Workers(c.Workers)}
+	}
+	return []func(*vegeta.Attacker){vegeta.Workers(c.Workers), vegeta.MaxWorkers(c.Max)}
 }
 
 type scriptState struct {
@@ -84,11 +92,7 @@ func newScriptExec(run *ev.Run, cfg scriptCfg, filter string) *scriptExec {
 	if scriptExecs++; scriptExecs%2 == 0 {
 		x.tg.err = vegeta.ErrNoTargets // the error an exhausted lazy targeter returns
 	}
-	x.atk = vegeta.NewAttacker(
-		vegeta.Client(&http.Client{Transport: x.rt}),
-		vegeta.Workers(cfg.Workers),
-		vegeta.MaxWorkers(cfg.Max),
-	)
+	x.atk = vegeta.NewAttacker(append([]func(*vegeta.Attacker){vegeta.Client(&http.Client{Transport: x.rt})}, cfg.options()...)...)
 	x.results = x.atk.Attack(x.tg.Targeter(), x.pacer, 0, "scripted")
 	x.observe()
 	return x
@@ -105,7 +109,7 @@ func (x *scriptExec) violate(prop, clause, class, note string, dump string) {
 	}
 	w := scriptWitness{Cfg: x.cfg, Script: append([]string{}, x.script...), Drain: x.drainMode, States: append([]scriptState{}, x.states...), Note: note, Dump: dump}
 	x.run.Violate(fmt.Sprintf("%s/%s/%s", prop, clause, class),
-		fmt.Sprintf("workers=%d max=%d script=%s: %s", x.cfg.Workers, x.cfg.Max, strings.Join(x.script, " "), note), w)
+		fmt.Sprintf("workers=%d max=%d (MaxWorkers option first: %v) script=%s: %s", x.cfg.Workers, x.cfg.Max, x.cfg.MaxFirst, strings.Join(x.script, " "), note), w)
 }
 
 // observe waits for quiescence, snapshots the observable state and checks the
@@ -392,7 +396,7 @@ func exploreScripts(run *ev.Run, cfg scriptCfg, depth int, first string, filter 
 	var stack []dfsFrame
 	leaf := 0
 	for {
-		logCase(fmt.Sprintf(`{"cfg":{"workers":%d,"max_workers":%d},"path":%q}`, cfg.Workers, cfg.Max, pathOf(stack)))
+		logCase(fmt.Sprintf(`{"cfg":{"workers":%d,"max_workers":%d,"max_workers_option_first":%v},"path":%q}`, cfg.Workers, cfg.Max, cfg.MaxFirst, pathOf(stack)))
 		x := newScriptExec(run, cfg, filter)
 		diverged := false
 		for d := 0; d < depth && !x.failed; d++ {
